@@ -327,6 +327,7 @@ func (x g) leaf(sb *strings.Builder, withCD bool) {
 	x.field(sb, "Content-Type", x.ct(false, ""), 85)
 	x.field(sb, "Content-Transfer-Encoding", cte, 70)
 	x.field(sb, "Content-ID", x.cid(), 40)
+	x.field(sb, "Content-Description", x.mostly(50, []string{"a description"}, []string{x.encWord(x.pick(charsets))}), 15)
 	x.extraFields(sb, 25)
 	sb.WriteString("\r\n")
 	sb.WriteString(x.body(cte))
@@ -380,6 +381,57 @@ func (x g) multipart(sb *strings.Builder, b string, depth int) {
 var oddAddrs = []string{"undisclosed-recipients:;", "undisclosed-senders:;", "g: a@x.test, \"B\" <b@x.test>;", "g:;, h:;", "(only a comment) a@x.test",
 	"a@x.test (Name)", "\"a b\"@x.test", "<a@x.test>", "<>", ",", "a@x.test,", ",a@x.test", "=?UTF-8?Q?J=C3=BCrgen?= <j@x.test>", "=?UTF-8?B?SsO8cmdlbg==?= <j@x.test>",
 	"\"\" <e@x.test>", "a@[127.0.0.1]", "j\xc3\xbcrgen@x.test", "A <a@x.test> B", "<@r.test:a@x.test>", ":;", ";", "g:", "g: ;"}
+
+// charsets a decoder may be asked for (RFC 2047 encoded-words, charset= parameters)
+var charsets = []string{"utf-8", "UTF-8", "iso-8859-1", "iso-8859-2", "iso-8859-5", "iso-8859-7", "iso-8859-9", "iso-8859-11", "iso-8859-15", "iso-8859-16",
+	"windows-1250", "windows-1251", "windows-1252", "windows-1258", "koi8-r", "koi8-u", "us-ascii", "UTF-7", "utf-7", "UTF-16", "UTF-16LE", "UTF-16BE",
+	"UTF-32", "UTF-32BE", "ISO-2022-JP", "ISO-2022-KR", "ISO-2022-CN", "ISO-2022-CN-EXT", "GBK", "GB18030", "gb2312", "Big5", "EUC-JP", "EUC-KR", "Shift_JIS",
+	"HZ-GB-2312", "IBM037", "macintosh", "x-unknown", "", "utf-8*en", "iso-8859-1*de-DE", "UTF-7*x", strings.Repeat("x-very-long-charset-name-", 12), "utf 8", "?", "unicode-1-1-utf-7", "cp437", "latin1"}
+
+// an RFC 2047 encoded-word with that charset
+func (x g) encWord(cs string) string {
+	if x.p(50) {
+		return "=?" + cs + "?" + x.pick([]string{"Q", "q"}) + "?" + x.pick([]string{"caf=E9", "a_b", "=C3=A4", "+AGE-", "=1B$B", ""}) + "?="
+	}
+	return "=?" + cs + "?" + x.pick([]string{"B", "b"}) + "?" + x.pick([]string{"Y2Fmw6k=", "K0FHRS0=", "GyRC", "", "/v8AYQ=="}) + "?="
+}
+
+// every header a decoder could touch, at the top level and in parts; pos selects the ONE header that carries the
+// encoded-word w / the charset cs (so that an error on one header cannot mask the decoder behind another one);
+// pos = nEncPos-1: all of them at once
+const nEncPos = 18
+
+func encWordMessage(cs, w string, pos int) []byte {
+	all := pos == nEncPos-1
+	v := func(k int, plain string) string {
+		if all || pos == k {
+			return w
+		}
+		return plain
+	}
+	c := func(k int) string {
+		if all || pos == k {
+			return "; charset=" + cs
+		}
+		return "; charset=utf-8"
+	}
+	if pos == 15 { // not a multipart message
+		return []byte("From: a@x.test\r\nSubject: s\r\nContent-Description: " + w + "\r\nContent-Type: text/plain; charset=" + cs + "\r\nContent-Transfer-Encoding: quoted-printable\r\n\r\nbody\r\n")
+	}
+	top := "From: " + v(0, "A") + " <a@x.test>\r\nTo: " + v(1, "B") + " <b@x.test>, \"" + v(1, "C") + "\" <c@x.test>\r\nCc: " + v(2, "D") + " <d@x.test>\r\nSubject: " + v(3, "s") + " and " + v(3, "t") +
+		"\r\nComments: " + v(4, "c") + "\r\nContent-Description: " + v(5, "d") + "\r\nMIME-Version: 1.0\r\n"
+	part := func(k int) string {
+		return "Content-Description: " + v(k, "part") + "\r\nContent-ID: <" + v(7, "id") + ">\r\nComments: " + v(16, "c") + "\r\n"
+	}
+	fstar := ""
+	if all || pos == 11 {
+		fstar = "; filename*=" + cs + "''a%20b"
+	}
+	return []byte(top + "Content-Type: multipart/mixed; boundary=EW" + c(14) + "\r\n\r\n--EW\r\nContent-Type: text/plain" + c(9) + "; name=\"" + v(8, "n") + "\"\r\n" + part(6) +
+		"Content-Transfer-Encoding: 8bit\r\n\r\nbody\r\n--EW\r\nContent-Type: multipart/alternative; boundary=EX\r\nContent-Description: " + v(13, "nested") + "\r\n\r\n--EX\r\nContent-Type: text/html" + c(9) + "\r\n" + part(12) +
+		"\r\n<p>x</p>\r\n--EX--\r\n\r\n--EW\r\nContent-Disposition: attachment; filename=\"" + v(10, "f.bin") + "\"" + fstar + "\r\nContent-Type: application/octet-stream; name=" + v(8, "f.bin") + "\r\n" + part(17) +
+		"Content-Transfer-Encoding: base64\r\n\r\nQUJD\r\n--EW--\r\n")
+}
 
 // values a refactoring might read as a number
 var numEdge = []string{"-1", "0", "1", "-9223372036854775808", "9223372036854775807", "9223372036854775808", "18446744073709551616",
@@ -615,6 +667,13 @@ func Run(r *hx.Run, replay []hx.Case) {
 		for _, v := range numEdge {
 			runOne(r, r.NewID(), []byte("From: a@x.test\r\nTo: b@x.test\r\n"+h+": "+v+"\r\nMIME-Version: 1.0\r\nContent-Type: text/plain\r\n\r\nbody\r\n"), -1, 0, "extra-header", true)
 			runOne(r, r.NewID(), []byte("From: a@x.test\r\nMIME-Version: 1.0\r\nContent-Type: multipart/mixed; boundary=BB\r\n\r\n--BB\r\nContent-Type: text/plain\r\n"+h+": "+v+"\r\n\r\nbody\r\n--BB\r\nContent-Disposition: attachment; filename=\"a\"\r\n"+h+": "+v+"\r\n\r\nQUJD\r\n--BB--\r\n"), -1, 0, "extra-header", true)
+		}
+	}
+	// 1c. RFC 2047 encoded-words and charset= parameters over a wide charset list, one message per header a decoder
+	// could touch (top level, parts, nested parts) and one with all of them
+	for _, cs := range charsets {
+		for pos := 0; pos < nEncPos; pos++ {
+			runOne(r, r.NewID(), encWordMessage(cs, x.encWord(cs), pos), -1, 0, "charsets", true)
 		}
 	}
 	// 2. grammar-based messages
